@@ -133,7 +133,7 @@ def run_tlc(module, cfg, workers=4, timeout=900, env=None, xmx="6g", dfs=False, 
     m = re.search(r"Invariant (\S+) is violated", out)
     if m:
         r.violated = m.group(1)
-    m = re.search(r"Temporal properties were violated|Action property .* is violated", out)
+    m = re.search(r"Temporal propert(y|ies) .*violated|Action property .* is violated", out)
     if m and not r.violated:
         r.violated = "temporal"
     m = re.search(r'"PROPERTY-VIOLATED",\s*"(\w+)"', out)
